@@ -33,5 +33,10 @@ int main(int argc, char** argv) {
     // stream boundary at chosen distances before a multiple of 5000 (size of the library's read-ahead buffer)
     for (int want : {0, 1, 2, 3, 4, 100}) { for (int tries = 0; tries < 4000; ++tries) { std::string p = noise(rng, 9000 + tries); std::string c = compress(p); if (int((5000 - c.size() % 5000) % 5000) == want) { if (check({p, noise(rng, 30000)}, "stream ends close to a read-ahead boundary")) return 1; break; } } }
     for (int i = 0; i < 30; ++i) { std::vector<std::string> ps; int n = 1 + rng() % 4; for (int k = 0; k < n; ++k) ps.push_back(noise(rng, rng() % 3 == 0 ? rng() % 50 : rng() % 60000)); if (check(ps, "random streams")) return 1; }
+    // stream boundary exactly ON a multiple of 5000: no unused read-ahead bytes although the file goes on. Find the payload length whose stream is about 5000 bytes, then vary the content.
+    { size_t n = 2000; while (n < 40000 && compress(noise(rng, n)).size() < 5000) n += 50;
+      bool found = false;
+      for (int tries = 0; tries < 20000 && !found; ++tries) { std::string p = noise(rng, n - 60 + size_t(tries % 120)); if (compress(p).size() == 5000) { found = true; if (check({p, noise(rng, 300)}, "stream ends exactly at a read-ahead boundary")) return 1; if (check({p, noise(rng, 30000), noise(rng, 10)}, "stream ends exactly at a read-ahead boundary")) return 1; } }
+      if (!found) std::printf("note: no stream of exactly 5000 bytes found\n"); }
     std::printf("search: no disagreement found\n"); return 0;
 }
